@@ -54,8 +54,9 @@ XKIND = {'c05': ('xhcase', 'From VT Require Import Check.SrvCheck Check.C05XChec
 def case_kind(name):
     """(Coq case type, imports, eval function, term printer) for a property's histories."""
     if name in XKIND:
-        t, imp, fn = XKIND[name]
-        return t, imp, fn, xhcase_term
+        t, imp, fn = XKIND[name][:3]
+        # a property module may register its own case type with its own printer (4th component)
+        return t, imp, fn, (XKIND[name][3] if len(XKIND[name]) > 3 else xhcase_term)
     return 'hcase', IMPORTS_FMT % name.upper(), name + '_eval', hcase_term
 
 
